@@ -562,6 +562,9 @@ def _sparse_binop(interp, op, l, r):
         if isinstance(op, (ast.Add, ast.Sub)):
             return new_sparse(Term("spadd" if isinstance(op, ast.Add) else "spsub", [_freeze_sparse(l), _freeze_sparse(r)]),
                               f"sum#{l.uid}+{r.uid}", ("sum",), l.attrs.get("shape") or r.attrs.get("shape"), fmt="csr")
+        if isinstance(op, ast.MatMult):
+            # A @ B  is  A.dot(B)
+            return new_sparse(Term("spdot", [_freeze_sparse(l), _freeze_sparse(r)]), f"dot#{l.uid}", ("dot",), None, fmt="csr")
         return new_sparse(Term("sp" + name.lower(), [_freeze_sparse(l), _freeze_sparse(r)]), f"op#{l.uid},{r.uid}", ("op",))
     sp, other, left = (l, r, True) if is_sparse(l) else (r, l, False)
     if isinstance(other, Num) and isinstance(op, (ast.Mult, ast.Div)) and (left or isinstance(op, ast.Mult)):
